@@ -4,6 +4,6 @@ set -e
 cd "$(dirname "$0")"
 export CARGO_NET_OFFLINE=true
 (cd lean && lake build)
-(cd harness && cp -n /repo/Cargo.lock . 2>/dev/null || true; CARGO_TARGET_DIR="$PWD/target" cargo build --release --offline)
+(cd harness && cp -n /repo/Cargo.lock . 2>/dev/null || true; CARGO_TARGET_DIR="$PWD/target" cargo build --release --offline && CARGO_TARGET_DIR="$PWD/target" cargo build --profile nochecks --offline)
 mkdir -p work replays evidence
 echo "setup ok"
